@@ -57,6 +57,7 @@ PROPS['C07'] = {
     ],
 }
 PROPS['C08'] = {
+    'level_addendum': 'Additionally: the ownership-object histories of C07 (move construction / assignment over held ownerships, double release, self-move, two mutexes; after every step a probe try_lock must succeed exactly when the model says the mutex is free).',
     'technique': 'history recording at the API boundary checked against FIFO reference order; stress rounds with quiescence-based hang detection',
     'level_text': ('Grant order == arrival order on every generated single-thread history (exact oracle) and on every pool/thread hand-over '
                    'history; in multi-threaded rounds only pairs ordered by a boundary return->call gap constrain the order, lost requests are '
@@ -72,12 +73,13 @@ PROPS['C08'] = {
              'descriptors / round signatures.'),
     'min_nontrivial': [50, 500],
     'require_classes': ['mutex_mt:lock_path_waited', 'mutex_mt:unlock_handover'],
-    'single_thread_scenarios': ('mutex_fifo_history', 'mutex_pool_handoff'),
+    'single_thread_scenarios': ('mutex_fifo_history', 'mutex_pool_handoff', 'ownership_object_history'),
     'jobs': [
         J('hist_asan', 'c08.cpp', 'asan', [20000, 1000000], scenario='mutex_fifo_history', threads=1),
         J('mt_rel', 'c08.cpp', 'rel', [100000, 8000000], scenario='mutex_mt'),
         J('mt_asan', 'c08.cpp', 'asan', [15000, 800000], scenario='mutex_mt'),
         J('pool_asan', 'c08.cpp', 'asan', [20000, 400000], scenario='mutex_pool_handoff', threads=1),
+        J('own_asan', 'c08.cpp', 'asan', [20000, 1000000], scenario='ownership_object_history', threads=1),
         J('mt_crel', 'c08.cpp', 'crel', [0, 3000000], scenario='mutex_mt', tiers=(T,)),
         J('hist_casan', 'c08.cpp', 'casan', [0, 500000], scenario='mutex_fifo_history', threads=1, tiers=(T,)),
     ],
